@@ -461,6 +461,7 @@ package shwap
 // the trusted row roots), in row order, each verified against its own row root.
 //@ func (NamespaceData).Verify
 //@   property C02
+//@   effect $NDVerified := err == nil
 //@   requires root != nil
 //@   checks err == nil ==> len(nd) == len(rowIdxs)
 //@   checks err == nil ==> forall i int :: 0 <= i && i < len(nd) ==> nd[i].Proof != nil && (len(nd[i].Shares) == 0 <==> len(deref(nd[i].Proof).leafHash) > 0) && nmtNsVerified(deref(nd[i].Proof), namespace.data, nd[i].Shares, root.RowRoots[rowIdxs[i]])
@@ -532,6 +533,7 @@ package shwap
 
 //@ func (*Row).Verify
 //@   property C01 C10
+//@   effect $RowVerified := err == nil
 //@   requires r != nil && 0 <= idx && idx < len(roots.RowRoots)
 //@   ensures err == nil ==> len(r.shares) != 0 && (r.side == Left || r.side == Right || r.side == Both)
 //@   ensures err == nil ==> len(r.shares) == (r.side == Both ? len(roots.RowRoots) : len(roots.RowRoots) / 2)
@@ -562,6 +564,7 @@ package shwap
 // The public inclusion check is the share verifier applied to the container's own rows.
 //@ func (*RangeNamespaceData).VerifyInclusion
 //@   property C01 C10
+//@   effect $RangeVerified := err == nil
 //@   requires rngdata != nil && odsSize > 0
 //@   ensures err == nil ==> len(rngdata.Shares) == to.Row - from.Row + 1 && len(roots) == len(rngdata.Shares) && len(rngdata.Shares) > 0
 //@   ensures err == nil ==> forall i int :: 0 <= i && i < len(rngdata.Shares) ==> len(rngdata.Shares[i]) == rowLen(i, len(rngdata.Shares), from.Col, to.Col, odsSize)
